@@ -747,6 +747,7 @@ func genParseCmd(args []string) int {
 		return 0
 	}
 	g := newPathGen(rand.New(rand.NewSource(*seed)))
+	g.emitFixed(cw)
 	for cw.id-*idBase < *n {
 		g.emitRandom(cw)
 	}
